@@ -22,6 +22,7 @@ import (
 	"github.com/google/martian/v3"
 	"github.com/google/martian/v3/parse"
 	"github.com/google/martian/v3/proxyutil"
+	"github.com/google/martian/v3/verify"
 )
 
 // ValueRegexFilter executes resmod and reqmod when the header
@@ -150,4 +151,58 @@ func (f *ValueRegexFilter) SetResponseModifier(resmod martian.ResponseModifier) 
 	}
 
 	f.resmod = resmod
+}
+
+// VerifyRequests returns an error containing all the verification errors
+// returned by request verifiers in both branches.
+func (f *ValueRegexFilter) VerifyRequests() error {
+	merr := martian.NewMultiError()
+	for _, m := range []martian.RequestModifier{f.reqmod, f.freqmod} {
+		if v, ok := m.(verify.RequestVerifier); ok {
+			if err := v.VerifyRequests(); err != nil {
+				merr.Add(err)
+			}
+		}
+	}
+	if merr.Empty() {
+		return nil
+	}
+
+	return merr
+}
+
+// VerifyResponses returns an error containing all the verification errors
+// returned by response verifiers in both branches.
+func (f *ValueRegexFilter) VerifyResponses() error {
+	merr := martian.NewMultiError()
+	for _, m := range []martian.ResponseModifier{f.resmod, f.fresmod} {
+		if v, ok := m.(verify.ResponseVerifier); ok {
+			if err := v.VerifyResponses(); err != nil {
+				merr.Add(err)
+			}
+		}
+	}
+	if merr.Empty() {
+		return nil
+	}
+
+	return merr
+}
+
+// ResetRequestVerifications resets the request verifiers in both branches.
+func (f *ValueRegexFilter) ResetRequestVerifications() {
+	for _, m := range []martian.RequestModifier{f.reqmod, f.freqmod} {
+		if v, ok := m.(verify.RequestVerifier); ok {
+			v.ResetRequestVerifications()
+		}
+	}
+}
+
+// ResetResponseVerifications resets the response verifiers in both branches.
+func (f *ValueRegexFilter) ResetResponseVerifications() {
+	for _, m := range []martian.ResponseModifier{f.resmod, f.fresmod} {
+		if v, ok := m.(verify.ResponseVerifier); ok {
+			v.ResetResponseVerifications()
+		}
+	}
 }
